@@ -411,8 +411,19 @@ package interpreter
 //@ ensures [VarList.last] case *ast.VarListStmt: evN() > 0 ==> (sigT(evN()-1) != 0 ==> result1 == evSig(evN()-1)) && (sigT(evN()-1) == 0 ==> result1.Type == 0) [C04,C05]
 //@ ensures [VarList.complete] case *ast.VarListStmt: evN() < len(vl.Declarations) ==> evN() > 0 && !live(evN()-1) [C03,C06]
 
+// object literal: the initialisers in source order; the result is a fresh object holding one property per listed name
+// (the map under construction is private to the invocation: the object heap is left out of the glue between events)
+//@ ensures [ObjLit.events] case *ast.ObjectLiteral: evN() <= len(ol.Keys) && (evN() > 0 ==> stateIsPostY(evN()-1)) && forall(k, 0, evN(), evalAt(k, ol.Properties[ol.Keys[k].Lexeme], env, isRepl)) && forall(k, 1, evN(), followsY(k)) && forall(k, 0, evN()-1, sigT(k) == 0) [C13,C14,C12]
+//@ ensures [ObjLit.signal] case *ast.ObjectLiteral: evN() > 0 && sigT(evN()-1) != 0 ==> result1 == evSig(evN()-1) [C04,C05]
+//@ ensures [ObjLit.value] case *ast.ObjectLiteral: (evN() == 0 || sigT(evN()-1) == 0) ==> evN() == len(ol.Keys) && result1.Type == 0 && isObj(result0) && !old(mapAllocated(now(obj(result0)))) [C12]
+
 //@ loop 1:
 //@   invariant [flagmono] old(utils.HadRuntimeError) ==> utils.HadRuntimeError
+//@   invariant [log] evN() == iter
+//@   invariant [private] properties != nil && !old(mapAllocated(now(properties)))
+//@   invariant [events] forall(k, 0, iter, evalAt(k, ol.Properties[ol.Keys[k].Lexeme], env, isRepl) && sigT(k) == 0)
+//@   invariant [chain] forall(k, 1, iter, followsY(k))
+//@   invariant [now] iter > 0 ==> stateIsPostY(iter-1)
 //@ loop 2:
 //@   invariant [flagmono] old(utils.HadRuntimeError) ==> utils.HadRuntimeError
 //@   invariant [log] evN() == iter && len(elements) == iter
